@@ -72,6 +72,26 @@ def cmmWith {M N P : Type} [Add P] [Sub P] (mm : M → N → P) (Ar Ai : M) (Br 
 
 end Scalar
 
+/-! ### the real layout `(…, 2)` ↔ complex entries (`view_as_complex` / `view_as_real` / `tensor_to_complex_numpy`) -/
+section Views
+variable {R : Type}
+
+/-- consecutive `(re, im)` pairs of the flat data of a `(…, 2)` tensor -/
+def pairs : List R → List (Cpx R)
+  | a :: b :: rest => ⟨a, b⟩ :: pairs rest
+  | _ => []
+
+def unpairs (zs : List (Cpx R)) : List R := zs.flatMap fun z => [z.re, z.im]
+
+/-- `view_as_complex`: defined only when the last axis has length 2 -/
+def viewAsComplex (t : Tensor R) : Option (Tensor (Cpx R)) :=
+  if t.shape.getLast? = some 2 then some ⟨t.shape.dropLast, pairs t.data⟩ else none
+
+/-- `view_as_real` -/
+def viewAsReal (t : Tensor (Cpx R)) : Tensor R := ⟨t.shape ++ [2], unpairs t.data⟩
+
+end Views
+
 /-! ### tensors (flat row-major; torch broadcasting) -/
 section TensorOps
 
@@ -168,19 +188,120 @@ length 2 (`is_complex_data`), `(false, data)` otherwise -/
 def modSqIfComplex (t : Tensor R) (complexAxis : Int) : Bool × Tensor R :=
   if t.shape.getD (normAxis t.shape.length complexAxis) 0 = 2 then (true, modSqAxis t complexAxis) else (false, t)
 
-/-- real matrix product on row lists (what `torch.mm` computes) -/
-def rmm (A B : List (List R)) : List (List R) :=
-  let p := (B.headD []).length
+/-- real matrix product on row lists (what `torch.mm` computes): `A` is `n × m`, `B` is `m × p` (`p` explicit so that
+`m = 0` gives the `n × p` zero matrix, as torch does) -/
+def rmm (p : Nat) (A B : List (List R)) : List (List R) :=
   A.map fun row => (List.range p).map fun j => (List.zipWith (· * ·) row (B.map fun r => r.getD j 0)).sum
 
-instance : Add (List (List R)) := ⟨fun A B => List.zipWith (List.zipWith (· + ·)) A B⟩
-instance : Sub (List (List R)) := ⟨fun A B => List.zipWith (List.zipWith (· - ·)) A B⟩
+/-- entrywise sum / difference of row lists -/
+def addM (A B : List (List R)) : List (List R) := List.zipWith (List.zipWith (· + ·)) A B
+def subM (A B : List (List R)) : List (List R) := List.zipWith (List.zipWith (· - ·)) A B
 
-/-- `complex_mm` on row lists of pairs -/
-def cmm (A B : List (List (Cpx R))) : List (List (Cpx R)) :=
-  let parts := cmmWith rmm (A.map (·.map Cpx.re)) (A.map (·.map Cpx.im)) (B.map (·.map Cpx.re)) (B.map (·.map Cpx.im))
+instance : Add (List (List R)) := ⟨addM⟩
+instance : Sub (List (List R)) := ⟨subM⟩
+
+/-- `complex_mm` on row lists of pairs (`A` is `n × m`, `B` is `m × p`) -/
+def cmm (p : Nat) (A B : List (List (Cpx R))) : List (List (Cpx R)) :=
+  let parts := cmmWith (rmm p) (A.map (·.map Cpx.re)) (A.map (·.map Cpx.im)) (B.map (·.map Cpx.re)) (B.map (·.map Cpx.im))
   List.zipWith (List.zipWith fun r i => (⟨r, i⟩ : Cpx R)) parts.1 parts.2
 
 end TensorOps
+
+/-! ### call sites of the coil operators outside `direct/data/transforms.py` (structural table)
+
+Every place under `direct/` that calls `reduce_operator` / `expand_operator` / `root_sum_of_squares`, or re-implements
+them inline (`complex_multiplication(conjugate(S), y).sum(d)`, `complex_multiplication(S, x.unsqueeze(d))`,
+`(S ** 2).sum(complex_dim).sum(coil_dim)`), is translated into a `CoilSite` row (`Gen.C02.coil_sites`).  A row is
+well-formed when the axis argument is the class's coil-dimension attribute / a `coil_dim` parameter (or a literal equal
+to the declared value), the conjugated operand of an inline reduce is the sensitivity map, and the unsqueezed operand
+of an inline expand is the image. -/
+section Sites
+
+/-- how an axis argument is written at a call site -/
+inductive DimForm where
+  | attr (a : String)      -- `self.<a>`
+  | name (n : String)      -- a local / parameter
+  | lit (v : Int)          -- an integer literal
+  | omitted                -- not given (the callee's default, 0)
+  | other (src : String)   -- anything else
+deriving Repr, DecidableEq
+
+inductive SiteKind where
+  | reduceCall | expandCall | rssCall      -- calls of the verified functions
+  | inlineReduce                           -- complex_multiplication(conjugate(A), B) summed over an axis
+  | inlineExpand                           -- complex_multiplication(A, B.unsqueeze(d)) (either order)
+  | inlineRss                              -- (A ** 2).sum(cdim).sum(dim)
+  | sensGrad                               -- complex_multiplication(A, conjugate(x).unsqueeze(d)): y · conj(x), not a coil combination
+  | conjProduct                            -- complex_multiplication with one conjugated operand, not summed here
+deriving Repr, DecidableEq
+
+structure CoilSite where
+  file : String
+  func : String
+  kind : SiteKind
+  dim : DimForm                 -- the coil axis argument
+  cdim : DimForm                -- inline rss: the complex axis argument
+  declared : Option Int         -- literal value of the coil-dimension attribute declared by the enclosing class
+  conjOperand : String          -- inline reduce: source text of the conjugated operand
+  unsqOperand : String          -- inline expand: source text of the unsqueezed operand
+  otherOperand : String         -- the remaining operand
+deriving Repr, DecidableEq
+
+def coilNames : List String := ["_coil_dim", "coil_dim"]
+def complexNames : List String := ["_complex_dim", "complex_dim"]
+def sensNames : List String := ["sensitivity_map", "sample['sensitivity_map']", "data['sensitivity_map']"]
+
+/-- the axis argument names the coil axis -/
+def DimForm.isCoil (d : DimForm) (declared : Option Int) : Bool :=
+  match d with
+  | .attr a => coilNames.contains a
+  | .name n => coilNames.contains n
+  | .lit v => declared == some v
+  | .omitted => declared == some 0
+  | .other _ => false
+
+def DimForm.isComplex (d : DimForm) : Bool :=
+  match d with
+  | .attr a => complexNames.contains a
+  | .name n => complexNames.contains n
+  | .lit v => v == -1
+  | _ => false
+
+def CoilSite.wf (s : CoilSite) : Bool :=
+  match s.kind with
+  | .reduceCall | .expandCall | .rssCall | .sensGrad => s.dim.isCoil s.declared
+  | .inlineReduce => s.dim.isCoil s.declared && sensNames.contains s.conjOperand && !sensNames.contains s.otherOperand
+  | .inlineExpand => s.dim.isCoil s.declared && sensNames.contains s.otherOperand && !sensNames.contains s.unsqOperand
+  | .inlineRss => s.dim.isCoil s.declared && s.cdim.isComplex
+  | .conjProduct => true
+
+/-- the axis a site operates on when the class's coil-dimension attribute / `coil_dim` parameter has the value `coil` -/
+def CoilSite.axis (s : CoilSite) (coil : Int) : Int :=
+  match s.dim with
+  | .lit v => v
+  | .omitted => 0
+  | _ => coil
+
+/-- what an inline site computes from the tensor bound to the sensitivity name (`S`) and the other operand (`o`) -/
+def CoilSite.denote {R : Type} [Add R] [Sub R] [Mul R] [Neg R] [Zero R] [Inhabited R]
+    (s : CoilSite) (S o : Tensor (Cpx R)) (coil : Int) : Option (Tensor (Cpx R)) :=
+  let conjIsSens := sensNames.contains s.conjOperand
+  let unsqIsSens := sensNames.contains s.unsqOperand
+  match s.kind with
+  | .inlineReduce =>
+    some (sumAxis (if conjIsSens then cmulT (conjT S) o else cmulT (conjT o) S) (s.axis coil))
+  | .inlineExpand =>
+    some (if unsqIsSens then cmulT o (unsqueeze S (s.axis coil)) else cmulT S (unsqueeze o (s.axis coil)))
+  | _ => none
+
+/-- methods the oracle runs on the real classes; each must still contain a coil-operator site -/
+def oracleMethods : List String :=
+  ["CrossDomainNetwork._forward_operator", "CrossDomainNetwork._backward_operator", "IterDualNet._forward_operator",
+   "IterDualNet._backward_operator", "JointICNet._forward_operator", "JointICNet._backward_operator",
+   "LPDNet._forward_operator", "LPDNet._backward_operator", "MRIModelEngine._forward_operator",
+   "MRIModelEngine._backward_operator", "RecurrentVarNet.compute_sense_init", "RIM.compute_sense_init",
+   "Unet2d.compute_sense_init", "MRILogLikelihood.forward", "ComputeImageModule.forward"]
+
+end Sites
 
 end DirectVerif.Cx
